@@ -373,6 +373,11 @@ def literal_variants(name, m, sv, limit=16):
             if len(lit) > len(v):
                 continue
             cands = [lit + v[len(lit):], v[:len(v) - len(lit)] + lit]
+            # ... and numbers of neighbouring lengths that start with the literal (tails of the documented number)
+            for extra in (-2, -1, 1, 2, 3):
+                k = len(v) + extra - len(lit)
+                if 1 <= k <= len(v):
+                    cands.append(lit + v[len(v) - k:])
             for t in cands:
                 if t == v:
                     continue
